@@ -473,6 +473,19 @@ def bounded_native(ck):
                 fails.append({"obligation": "bounded.vec_1d_interp", "clause": "ordinates of integer type are interpolated like the floats they denote", "input": {"ys dtype": str(np.dtype(ydt)), "row": row.tolist(), "ys": ysi.tolist(), "queries": qs.tolist()}, "observed": {"code": got.tolist(), "spec": want.tolist()}})
         except Exception as ex:
             fails.append({"obligation": "bounded.vec_1d_interp", "clause": "ordinates of integer type are accepted", "input": {"ys dtype": str(np.dtype(ydt))}, "observed": "raised %r" % ex})
+    # (a3) ordinates that are not ascending (a descending or non-monotone column of values against the non-decreasing row): ordinary
+    # piecewise-linear interpolation of (row, ys)
+    for ysd in (np.array([9.0, 5.0, 2.0, 0.0]), np.array([1.0, 4.0, 2.0, 3.0]), np.array([4.0, 3.0, 2.0, 1.0])):
+        row = np.array([0.0, 0.25, 0.6, 1.0])
+        qs = np.array([0.1, 0.25, 0.5, 0.99])
+        n += len(qs)
+        try:
+            got = np.asarray(vec_1d_interp(np.tile(row, (len(qs), 1)), ysd.copy(), qs.copy()), dtype=float)
+            want = np.interp(qs, row, ysd)
+            if not np.allclose(got, want, rtol=1e-12, atol=1e-15):
+                fails.append({"obligation": "bounded.vec_1d_interp", "clause": "ordinates that are not ascending are interpolated like any others (ordinary piecewise-linear interpolation of the row against them)", "input": {"row": row.tolist(), "ys": ysd.tolist(), "queries": qs.tolist()}, "observed": {"code": got.tolist(), "spec": want.tolist()}})
+        except Exception as ex:
+            fails.append({"obligation": "bounded.vec_1d_interp", "clause": "ordinates that are not ascending are accepted", "input": {"ys": ysd.tolist()}, "observed": "raised %r" % ex})
     # (b) the real sampler on the shipped tables: own energy/angle/u per event, chunking, mixed batches
     for ver in VERSIONS:
         nt = NativeTables(ver)
